@@ -99,6 +99,7 @@ func (p *piece) dirty() bool {
 }
 
 func (p *piece) tryMarkDirty() (dirty, complete bool) {
+	verifPoint("piece.trymarkdirty")
 	p.Lock()
 	defer p.Unlock()
 
